@@ -304,14 +304,17 @@ def _later(x, days):
 
 _token = st.lists(st.sampled_from(list("abcxyzABC019-")), min_size=1, max_size=8).map("".join)
 _param = st.dictionaries(st.sampled_from(["X-P", "LANGUAGE", "X-Other", "CN", "ROLE"]),
-                         st.one_of(st.sampled_from(["en", "de-AT", "Chair Person", "a;b", "c,d", "x:y"]), st.lists(st.sampled_from(["p", "q r", "s,t"]), min_size=2, max_size=3)),
+                         st.one_of(st.sampled_from(["en", "de-AT", "Chair Person", "a;b", "c,d", "x:y", "name\tplace", "\tlead", "", "a=b", "it's", "50%", "caf\u00e9"]),
+                                   st.lists(st.sampled_from(["p", "q r", "s,t", "u\tv", ""]), min_size=2, max_size=3)),
                          max_size=2)
 
 
 @st.composite
 def s_prop(draw, safe_text=False, with_params=True, names=None):
     if names is None and draw(st.integers(0, 4)) == 0:
-        name = "X-" + draw(_token)
+        # free extension names, and the X- names the library itself knows or treats specially somewhere
+        name = draw(st.one_of(_token.map(lambda t: "X-" + t), st.sampled_from(["X-COMMENT", "X-WR-CALNAME", "X-WR-TIMEZONE", "X-MOZ-GENERATION", "X-LIC-LOCATION", "X-ALT-DESC",
+                                                                                "X-MICROSOFT-CDO-BUSYSTATUS", "X-APPLE-STRUCTURED-LOCATION", "X-PUBLISHED-TTL"])))
         kind = "text"
     else:
         name = draw(st.sampled_from(sorted(names or RFC_PROPS)))
